@@ -25,6 +25,9 @@ CLAIMED = {
  "C14": ("DESIGN.md 4/C14",
    "Proof of function contract: escape.instructionLocality returns, for every memory-accessing instruction kind (store, load through any pointer type incl. named ones, channel receive/send, map update/lookup/range/next, type assertion, select), exactly the verdict of derefsAreLocal on the node of the accessed operand, and never classifies an unknown instruction kind as local; EscapeGraph.nodes is immutable after construction (checked frame scan). Soundness of the escape graph w.r.t. executions and schedules is not proved.",
    "Trusted: as C05; assumed contract of NodeGroup.ValueNode (returns the node of the value). Known finding 5.12 (by-value struct arguments not mapped into callee context) is not yet under contract."),
+ "C15": ("DESIGN.md 4/C15",
+   "Proof of function contracts: the basic escape-graph operations are extensive (they never lower a status nor remove a node or edge): AddNode adds exactly the missing node with its intrinsic status and keeps the graph well-formed; computeEdgeClosure propagates the source's status to the target, never lowers a status and leaves edges untouched (worklist loop over a map iterated in arbitrary order, frame proved); MergeNodeStatus raises n to at least s and lowers nothing. The semilattice laws of Merge (idempotent/commutative/associative, upper bound) and monotonicity of the ~40 transfer cases are not proved.",
+   "Trusted: as C05; assumed deps contracts (fmt.Sprintf modifies nothing). Merge/AddEdge/LessEqual are not yet under contract."),
  "C16": ("DESIGN.md 4/C16",
    "Proof of function contracts, for all inputs and all iterations: stackCompare is the lexicographic comparison of (Block, Ins) sequences (functional correctness, safety, termination) and, as lemmas derived from that contract only, a total preorder compatible with content equality (reflexive, antisymmetric, four transitivity laws); stackSetUnion returns a strictly sorted (duplicate-free) set containing exactly the stacks of both arguments, reports sameAsA exactly when every stack of b already occurs in a, and terminates (three merge loops with inductive invariants); stackPushed returns s ++ [(block, ins)] in a fresh array; dataflowTransfer is the identity on non-defer instructions, resets on RunDefers and reports `repeated` exactly when some incoming stack already contains the defer. Equality of the computed sets with the sets of path-wise defer sequences (MOP = MFP for this distributive framework) and termination of the outer fixpoint are not proved.",
    "Trusted: as C05; sort.Slice is havoc (the sortedness of the Defer case's result after sort+dedupe is not claimed); heap well-typedness."),
